@@ -330,13 +330,21 @@ func c12Run(c *core.Ctx, idx int) {
 				ca.Len()
 				cn.Len()
 				va, vn = AStack(other), other
+				want := stackage.Cond("k", stackage.Eq, other) // what a Condition holding the new pointee by value shows
 				ua, _ := ca.Unmarshal()
 				un, _ := cn.Unmarshal()
-				if ca.String() != cn.String() || ca.Len() != cn.Len() || ca.IsNesting() != cn.IsNesting() || unmarshalEq(un, ua, "u") != "" ||
-					stackage.And().Push(ca).String() != stackage.And().Push(cn).String() {
-					fail("pointer-form:stale", "after the pointee of a *alias expression was exchanged the Condition shows %q (Len %d), a Condition holding a native *Stack treated the same way shows %q (Len %d)", ca.String(), ca.Len(), cn.String(), cn.Len())
-					okAll = false
-					return
+				uw, _ := want.Unmarshal()
+				for form, cx := range map[string]stackage.Condition{"*alias": ca, "*Stack": cn} {
+					ux := ua
+					if form == "*Stack" {
+						ux = un
+					}
+					if cx.String() != want.String() || cx.Len() != want.Len() || cx.IsNesting() != want.IsNesting() || unmarshalEq(uw, ux, "u") != "" ||
+						stackage.And().Push(cx).String() != stackage.And().Push(want).String() {
+						fail("pointer-form:stale", "after the pointee of a %s expression was exchanged the Condition shows %q (Len %d); a Condition holding the new pointee shows %q (Len %d)", form, cx.String(), cx.Len(), want.String(), want.Len())
+						okAll = false
+						return
+					}
 				}
 			}
 			cd := stackage.Cond("k", stackage.Eq, "keep").SetNoNesting(true).SetExpression(v)
